@@ -2,7 +2,10 @@
    Interpreter::compile walks the plan; each step's compile (compile_unop!/binop!/... in
    src/core/src/stdlib.rs) allocates a register per cell address, CONST-LOADS the output cell and
    every operand cell with the value the cell holds when compile() is called (i.e. after
-   interpretation), and then emits the operation.  Running the program executes exactly that.
+   interpretation), and then emits the operation.  Interpreter::run_program executes the const loads
+   and REBUILDS the plan from the operation instructions without solving it: the result of a run is
+   the constant snapshot of the last operation's output; the operations only matter when the loaded
+   program is re-evaluated (step).
    Executable definitions only. *)
 From Coq Require Import List Arith Bool ZArith String.
 From MechV Require Import Base.Sexp Base.Obs Model.Plan.
@@ -15,18 +18,28 @@ Section Bytecode.
   | OP (f : list V -> V) (dst : nat) (args : list nat).
 
   Definition regs := nat -> V.
-  Definition exec (rs : regs) (i : binstr) : regs :=
+  (* Interpreter::run_program: a ConstLoad writes the register; an operation instruction looks its
+     factory up, builds the function object over the CURRENT register cells and appends it to the fresh
+     interpreter's plan — it is NOT solved; the program's result is the (const-loaded) output register of
+     the last operation. *)
+  Definition exec (st : regs * list (@pstep V)) (i : binstr) : regs * list (@pstep V) :=
     match i with
-    | CL r v => upd rs r v
-    | OP f d a => upd rs d (f (map rs a))
+    | CL r v => (upd (fst st) r v, snd st)
+    | OP f d a => (fst st, List.app (snd st) [{| s_out := d; s_args := a; s_fn := f |}])
     end.
-  Definition run (is : list binstr) (rs : regs) : regs := fold_left exec is rs.
+  Definition run (is : list binstr) (rs : regs) : regs * list (@pstep V) := fold_left exec is (rs, []).
 
   (* registers are identified with cells (alloc_register_for_ptr is injective on cell addresses) *)
   Definition compile_step (final : @store V) (st : @pstep V) : list binstr :=
     CL (s_out st) (final (s_out st)) :: map (fun a => CL a (final a)) (s_args st)
     ++ [OP (s_fn st) (s_out st) (s_args st)].
   Definition compile (p : list (@pstep V)) (final : @store V) : list binstr := flat_map (compile_step final) p.
+
+  (* re-evaluating the loaded program (REPL step after load): the rebuilt plan is solved over the registers *)
+  Definition restep (is : list binstr) (rs : regs) : regs :=
+    let '(rs', plan) := run is rs in resolve plan rs'.
+
+  Definition cells (p : list (@pstep V)) : list nat := flat_map (fun st => s_out st :: s_args st) p.
 End Bytecode.
 
 (* ---- the suite ---- *)
@@ -82,7 +95,7 @@ Definition is_unknown_function (k : string) : bool :=
 Definition judge_bc (x : sx) : sx :=
   match x with
   | Lx [Lx [Ax "bc"; Zx must_run; Lx flags; _];
-        Lx [Ax "bc"; interp; comp; load; re; runv; Lx (Ax "instrs" :: is); Lx (Ax "plan" :: plan); _]] =>
+        Lx (Ax "bc" :: interp :: comp :: load :: re :: runv :: Lx (Ax "instrs" :: is) :: Lx (Ax "plan" :: plan) :: _ :: restepv)] =>
       let pure := match map_opt decode_rstep plan with Some p => plan_pureb p | None => false end in
       let inplace := match map_opt decode_rstep plan with Some p => plan_has_inplace p | None => false end in
       if orb (is_err interp) (match interp with Lx (Ax "perr" :: _) => true | _ => false end) then v_ok "interpreter-rejects"
@@ -102,13 +115,27 @@ Definition judge_bc (x : sx) : sx :=
         (if Z.eqb must_run 1
          then (if is_unknown_function (err_kind runv) then v_kf "run-unknown-function" else v_bad "restricted-program-does-not-run" (Ax "ok"))
          else v_ok "run-error")
-      else if sx_eqb runv interp then (if pure then v_ok "equal-pure-plan" else v_ok "equal")
+      else if sx_eqb runv interp then
+        (* the property holds on this case; the tag also records what re-evaluating the loaded program gives
+           (outside C06's statement: informative only; C06_restep_correct predicts equality for pure plans) *)
+        (match restepv with
+         | [Lx [Ax "na"]] => if pure then v_ok "equal-pure-plan" else v_ok "equal"
+         | [r] => if sx_eqb r interp then (if pure then v_ok "equal-pure-plan-restep-equal" else v_ok "equal-restep-equal")
+                  else if andb pure (negb (has_flag "assign" flags)) then v_ok "equal-but-restep-differs-pure-plan"
+                  else v_ok "equal-restep-differs"
+         | _ => if pure then v_ok "equal-pure-plan" else v_ok "equal"
+         end)
       else
-        (* a different value: silently wrong.  Predicted by the model for plans with in-place steps (a cell
-           assigned after it was read), and for programs whose value is not the last plan step's output *)
+        (* a different value: silently wrong.  The model predicts it for programs whose value is not the
+           last plan step's output (the run returns the snapshot of the last operation's output) *)
         (if has_flag "lastref" flags then v_kf "result-is-last-step"
-         else if andb (has_flag "assign" flags) inplace then v_kf "stale-read-after-assignment"
          else if pure then v_bad "different-result-pure-plan" interp else v_bad "different-result" interp)
+  (* a case that asked for the re-evaluation of the loaded program (flag restep) and killed the process:
+     outside C06's statement (it fixes compile, load and run), recorded as advisory *)
+  | Lx [Lx [Ax "bc"; _; Lx flags; _]; Lx (Ax "abort" :: _)] =>
+      if has_flag "restep" flags then v_adv "restep-killed-the-process" else v_bad "host-aborted" (Ax "no-abort")
+  | Lx [Lx [Ax "bc"; _; Lx flags; _]; Lx [Ax "hang"]] =>
+      if has_flag "restep" flags then v_adv "restep-hung" else v_bad "hang" (Ax "no-hang")
   | _ => v_malformed
   end.
 
